@@ -105,6 +105,46 @@ func c15(c *Ctx) {
 		}
 		c.Expect(ok, nil, nil, "hook-raises-flag", "the strike-reset hook does not raise the reset flag")
 	})
+	c.Ob("client-keepalive-enabled", "R2", "NewHTTP2Client: keepalive is enabled exactly when the (defaulted) keepalive Time is not 'infinity', and the keepalive goroutine is started exactly when it is enabled", 3, func() {
+		f := c.fn(tr, "NewHTTP2Client")
+		fEn := c.field(tr, "http2Client", "keepaliveEnabled")
+		inf := ConstOfObj(c.konst(tr, "infinity"))
+		st := one(c, "store of keepaliveEnabled", storesToField(f, fEn))
+		ph, ok := st.Val.(*ssa.Phi)
+		if c.Expect(ok, st, f, "enabled-flag-is-decided-on-Time", "keepaliveEnabled is not chosen between false and true") {
+			nT, nF := 0, 0
+			for i, e := range ph.Edges {
+				pr := ph.Block().Preds[i]
+				fs := append(append([]Fact(nil), FactsAtBlock(pr)...), edgeOnlyFacts(pr, ph.Block())...)
+				switch {
+				case ConstBool(true)(e):
+					nT++
+					_, ok := hasFact(fs, Cmp(AnyV, token.NEQ, inf))
+					c.Expect(ok, st, f, "enabled-only-for-a-finite-Time", "keepalive is enabled although Time is 'infinity'")
+				case ConstBool(false)(e):
+					nF++
+					_, ok := hasFact(fs, Cmp(AnyV, token.EQL, inf))
+					c.Expect(ok, st, f, "disabled-only-for-infinite-Time", "keepalive is left disabled although a finite Time is configured (a dead peer would never be detected)")
+				default:
+					c.Expect(false, st, f, "enabled-flag-shape", "unexpected source of keepaliveEnabled")
+				}
+			}
+			c.Expect(nT == 1 && nF == 1, st, f, "enabled-flag-arms", "expected one enabling and one disabling arm")
+		}
+		var goKA *ssa.Go
+		for _, in := range instrsWhere2(f, func(in ssa.Instruction) bool {
+			g, ok := in.(*ssa.Go)
+			return ok && Callee(tr, "http2Client.keepalive")(&g.Call)
+		}) {
+			goKA = in.(*ssa.Go)
+		}
+		if c.Expect(goKA != nil, nil, f, "keepalive-goroutine-started", "the keepalive goroutine is never started") {
+			c.MustFact(goKA, "started-only-when-enabled", Truth(FieldLoad(fEn), true))
+			if len(goKA.Block().Succs) == 1 {
+				c.EnteredOnlyWhenExcept(goKA.Block().Succs[0], "skipped-only-when-disabled", func(p *ssa.BasicBlock) bool { return p == goKA.Block() }, Truth(FieldLoad(fEn), false))
+			}
+		}
+	})
 	c.Ob("keepalive-close", "R2", "sibling x2 (client, server keepalive loops): the connection is closed for a missing ack only with a ping outstanding, no timeout left, and no data read since the last check; the sleep is at most the remaining timeout and at most Time; a ping is sent only when none is outstanding", 10, func() {
 		for _, side := range []struct {
 			fn, kpT string
